@@ -10,9 +10,12 @@
                    sets — cached hash, cache generation, clean — are added by `decodeTop`),
     * `.err e`     the `error` decodeNode returns: what it says (`DErr`) and the decode path `wrapError`
                    records (`short`, `full`, `val`, `[i]`, innermost first),
-    * `.panic`     a Go RUN-TIME panic inside decodeNode: `compactToHex` indexes `base[0]` of an empty slice
-                   when the key string of a 2-element list is EMPTY (`c2 80 80`) — encoding.go:58.  This is
-                   the code as it is (upstream go-ethereum later added `if len(compact) == 0`),
+    * `.panic`     a Go RUN-TIME panic inside decodeNode.  Only the code BEFORE /repo 93439c0 has one
+                   (`emptyKeyPanics = true`): `compactToHex` indexes `base[0]` of an empty slice when the key
+                   string of a 2-element list is EMPTY (`c2 80 80`) — encoding.go:58.  Since 93439c0
+                   (`emptyKeyPanics = false`, the CURRENT code, what `decodeNode` below is) decodeShort returns
+                   the error "empty compact key" there and no input panics
+                   (`LemoProofs.C17.decodeNode_never_panics`),
     * `.depth`     nesting deeper than the blob is long — the recursion decodeRef → decodeNode is on a strictly
                    shorter buffer, so this is unreachable (`LemoProofs.C17.decodeNode_depth_unreachable`); it is
                    only here because the recursion is written with a depth counter.
@@ -39,6 +42,7 @@ inductive DErr where
   | value (e : Rlp.Err)      -- "invalid value node: …"
   | oversized (size : Nat)   -- "oversized embedded node (size is … bytes, want size < 32)"
   | strSize (n : Nat)        -- "invalid RLP string size … (want 0 or 32)"
+  | emptyKey                 -- "empty compact key" (decodeShort, since /repo 93439c0)
   deriving Repr, DecidableEq
 
 /-- `decodeError{what, stack}`; an error that was never wrapped has the empty path -/
@@ -86,8 +90,10 @@ def setC (ch : Nib → CNode) (i : Nib) (n : CNode) : Nib → CNode :=
 def slots16 : List Nib := [0, 1, 2, 3, 4, 5, 6, 7, 8, 9, 10, 11, 12, 13, 14, 15]
 
 section open_recursion
+-- `pk` (`emptyKeyPanics`): `true` = the code before /repo 93439c0 (no guard in decodeShort, compactToHex panics
+--      on an empty key string), `false` = the current code (decodeShort returns "empty compact key")
 -- `rec` is the nested `decodeNode(nil, buf, cachegen)` of decodeRef
-variable (rec : List UInt8 → DRes CNode)
+variable (pk : Bool) (rec : List UInt8 → DRes CNode)
 
 /-- `decodeRef(buf)`: the reference and the bytes after it -/
 def decodeRefW (buf : List UInt8) : DRes (CNode × List UInt8) :=
@@ -107,6 +113,9 @@ def decodeShortW (elems : List UInt8) : DRes CNode :=
   match splitString elems with
   | .error e => .err ⟨.rlp e, []⟩
   | .ok (kbuf, rest) =>
+    -- `if len(kbuf) == 0 { return nil, fmt.Errorf("empty compact key") }` (since /repo 93439c0)
+    if pk = false ∧ kbuf.isEmpty = true then .err ⟨.emptyKey, []⟩
+    else
     match compactToHex kbuf with
     | none => .panic                          -- base[0]: index out of range [0] with length 0
     | some key =>
@@ -144,7 +153,7 @@ def countOf (elems : List UInt8) : Nat :=
   | .error _ => 0
 
 section open_recursion
-variable (rec : List UInt8 → DRes CNode)
+variable (pk : Bool) (rec : List UInt8 → DRes CNode)
 
 /-- `decodeNode(hash, buf, cachegen)` -/
 def decodeNodeW (buf : List UInt8) : DRes CNode :=
@@ -153,36 +162,42 @@ def decodeNodeW (buf : List UInt8) : DRes CNode :=
     match splitList buf with
     | .error e => .err ⟨.list e, []⟩
     | .ok (elems, _) =>
-      if countOf elems = 2 then (decodeShortW rec elems).wrap "short"
+      if countOf elems = 2 then (decodeShortW pk rec elems).wrap "short"
       else if countOf elems = 17 then (decodeFullW rec elems).wrap "full"
       else .err ⟨.count (countOf elems), []⟩
 
 end open_recursion
 
 /-- decodeNode with at most `d` nested decodeNode calls -/
-def decodeNodeF : Nat → List UInt8 → DRes CNode
+def decodeNodeF (pk : Bool) : Nat → List UInt8 → DRes CNode
   | 0 => fun _ => .depth
-  | d + 1 => decodeNodeW (decodeNodeF d)
+  | d + 1 => decodeNodeW pk (decodeNodeF pk d)
 
-/-- **`decodeNode(hash, buf, cachegen)`** as a function of the bytes (the nesting cannot exceed the length) -/
-def decodeNode (buf : List UInt8) : DRes CNode := decodeNodeF (buf.length + 1) buf
+/-- **`decodeNode(hash, buf, cachegen)`** of the CURRENT code (since /repo 93439c0) as a function of the bytes
+    (the nesting cannot exceed the length) -/
+def decodeNode (buf : List UInt8) : DRes CNode := decodeNodeF false (buf.length + 1) buf
 
-/-- `decodeRef(buf, cachegen)` -/
-def decodeRef (buf : List UInt8) : DRes (CNode × List UInt8) := decodeRefW (decodeNodeF buf.length) buf
+/-- decodeNode of the code BEFORE /repo 93439c0 (no empty-key guard) -/
+def decodeNodeLegacy (buf : List UInt8) : DRes CNode := decodeNodeF true (buf.length + 1) buf
 
 /-- outcome of `mustDecodeNode(hash, buf, cachegen)` -/
 inductive Must where
   | ok (c : CNode)
   | panicErr (e : DecErr)     -- `panic(fmt.Sprintf("node %x: %v", hash, err))`
-  | panicIndex                -- the run-time panic of compactToHex, not caught by anything
+  | panicIndex                -- the run-time panic of compactToHex (legacy code only), not caught by anything
   | depth
 
-def mustDecodeNode (buf : List UInt8) : Must :=
-  match decodeNode buf with
+def mustOf : DRes CNode → Must
   | .ok c => .ok c
   | .err e => .panicErr e
   | .panic => .panicIndex
   | .depth => .depth
+
+/-- `mustDecodeNode` of the current code -/
+def mustDecodeNode (buf : List UInt8) : Must := mustOf (decodeNode buf)
+
+/-- `mustDecodeNode` of the code before /repo 93439c0 -/
+def mustDecodeNodeLegacy (buf : List UInt8) : Must := mustOf (decodeNodeLegacy buf)
 
 /-- the in-memory node decodeNode returns: the flags of the top node carry `hash` (nil for an embedded node)
     and the cache generation, all nodes are clean (`MptStore.decodeEmb` for what is embedded) -/
@@ -241,7 +256,8 @@ def newB (hashOf : CNode → Hash) (bs : BStore) (root : Hash) : Res Trie :=
     | .overflow => .overflow
 
 /-- `VerifyProof(rootHash, key, proofDb)` (code since /repo 18a0e58) over a reader of BYTES; `K` = Keccak256.
-    A nil answer is `none`.  decodeNode's error ⇒ "bad proof node"; its run-time panic is not caught. -/
+    A nil answer is `none`.  decodeNode's error ⇒ "bad proof node"; a run-time panic (none in the current decoder)
+    would not be caught. -/
 def verifyProofB (K : List UInt8 → Hash) (r : BStore) : Nat → Hash → List Nib → Nat → ProofRes
   | 0, _, _, _ => .diverge
   | fuel + 1, want, key, i =>
@@ -292,6 +308,7 @@ def DErr.show : DErr → String
   | .value e => "value:" ++ e.name
   | .oversized n => "oversized:" ++ toString n
   | .strSize n => "strsize:" ++ toString n
+  | .emptyKey => "emptykey"
 
 def joinPath : List String → String
   | [] => ""
